@@ -321,13 +321,21 @@ Definition flush_cbs (x : cst) (beh : nat -> list cop) : cst * list cev :=
   write_cbs (a_wq a + a_wc a)
             (mkCs (cs x) (co x) (nreq x) (ccbn x) (cchain x) (cpfix x) (creg x) (mkA (a_wr a) 0 0 (a_sh a) (a_cn a))) beh.
 
-(* the tail of uv__stream_connect after the callback, if the descriptor is still there and the
+(* the tail of uv__stream_connect after the callback, if the descriptor is still there.  The
    connect failed: the queued writes are cancelled and have their callbacks; a pending shutdown
    is carried out unless a callback started another connect (or closed the handle) *)
 Definition after_failed_connect (failed : bool) (x : cst) (beh : nat -> list cop) : cst * list cev :=
   if failed && c_fd (cs x) then
     let (x1, e1) := flush_cbs x beh in
     if a_sh (cax x1) && c_fd (cs x1) then let (x2, e2) := drain_if_idle x1 in (x2, e1 ++ e2) else (x1, e1)
+  else if negb failed && c_fd (cs x) && negb (Nat.eqb (a_wc (cax x)) 0) then
+    (* the connect succeeded and requests that had finished before it are still waiting for their
+       callbacks (write_completed_queue not empty): the wake-up that was meant for them ended up in
+       uv__stream_connect, so the watcher is fed again and the next run of the pending queue gets
+       to uv__write_callbacks (repair of C05's write_callback_lost_when_connect_started_before_delivery) *)
+    let s := cs x in
+    (mkCs (mkC (c_tcp s) (c_fd s) (c_req s) (c_delayed s) (c_pollout s) true (c_closing s) (c_closed s))
+          (co x) (nreq x) (ccbn x) (cchain x) (cpfix x) (creg x) (cax x), [])
   else (x, []).
 
 (* uv__stream_connect *)
